@@ -27,7 +27,7 @@ ASSUMPTIONS = ['closed configurations: every >x has a <x of the same order in so
 MECHANISMS = [('cgsmiles.sample', 'MoleculeSampler.add_fragment'), ('cgsmiles.sample', 'MoleculeSampler.sample'),
               ('cgsmiles.cgsmiles_utils', 'find_complementary_bonding_descriptor'), ('cgsmiles.cgsmiles_utils', 'find_open_bonds')]
 REQUIRED_COUNTERS = ['samples_returned']
-SIZES = {'quick': 2400, 'thorough': 60000}
+SIZES = {'quick': 3600, 'thorough': 60000}
 
 
 def setup():
